@@ -131,6 +131,10 @@ type DI struct {
 	// Src != 0: the content is streamed from the live object with that ID of the image being
 	// modified (d.GetReader() of the same handle); Data is filled in at execution time
 	Src uint32
+	// Seekable != "": the source is a seekable reader ("bytes": *bytes.Reader, "file": *os.File)
+	// over Pre bytes of framing followed by the content, handed over positioned after the framing
+	Seekable string
+	Pre      int
 }
 
 func (d DI) Lines() []string {
